@@ -103,7 +103,11 @@ def run(ctx):
     import cij.util.voigt as V
     importlib.reload(V)
     C, E = V.ModulusRepresentation, V.StrainRepresentation
-    c_, e_ = C._, E._
+    # the public entry points (cij.util.c_ / e_ / s_) are what callers use; they must be the class factories
+    import cij.util as U
+    importlib.reload(U)
+    c_, e_ = U.c_, U.e_
+    helper_stage(ctx, U, C, E)
 
     cases_mod = []   # (model_call, observed, description)
     valid = []       # (description, key) for equality matrix
@@ -254,6 +258,38 @@ def orbit(t):
 
 
 DOC = {1: (1, 1), 2: (2, 2), 3: (3, 3), 4: (2, 3), 5: (1, 3), 6: (1, 2)}
+
+
+def helper_stage(ctx, U, C, E):
+    """cij.util.c_ / s_ / e_ against the class factories, in interleaved call orders (a result must not depend on
+    which helper was called before with the same arguments)"""
+    def same(a, b):
+        return type(a) is type(b) and a == b and repr(a) == repr(b)
+    spell = []
+    for a in range(1, 7):
+        for b in range(1, 7):
+            spell += [(a, b), ("%d%d" % (a, b),), (10 * a + b,)]
+    for i in range(1, 4):
+        for j in range(1, 4):
+            spell += [(i, j), ("%d%d" % (i, j),)]
+    spell += [(v,) for v in range(1, 7)] + [(str(v),) for v in range(1, 7)]
+    n = 0
+    for order in (("c_", "e_", "s_", "e_", "c_"), ("e_", "s_", "c_", "e_")):
+        for args in spell:
+            for h in order:
+                want, werr = observe(C._ if h in ("c_", "s_") else E._, *args)
+                got, gerr = observe(getattr(U, h), *args)
+                n += 1
+                if (want is None) != (got is None) or (want is not None and not same(want, got)):
+                    ctx.failure("helper-%s-after-%s" % (h, "-".join(order)),
+                                "cij.util.%s%r returns %r (%s) but %s._%r is %r when the helpers are called in the order %s "
+                                "with the same arguments" % (h, args, got, type(got).__name__,
+                                                             "ModulusRepresentation" if h != "e_" else "StrainRepresentation",
+                                                             args, want, list(order)),
+                                input=dict(helper=h, args=list(args), call_order=list(order)),
+                                expected=repr(want), observed=repr(got))
+                    return
+    ctx.count("helper calls (c_/s_/e_ interleaved on identical arguments)", n)
 
 
 def oracle(ctx, c_, e_):
